@@ -554,7 +554,13 @@ func (e *pathEnv) compute(v ssa.Value) *Path {
 	case *ssa.MakeMap:
 		return &Path{Kind: "alloc", Name: "make(" + shortType(x.Type()) + ")"}
 	case *ssa.MakeSlice:
-		return &Path{Kind: "alloc", Name: "make(" + shortType(x.Type()) + ")"}
+		// length and capacity are part of the value: a buffer sized from untrusted input, or a
+		// slice created with a length and then appended to, differ only here
+		mp := &Path{Kind: "call", Name: "make", Args: []*Path{{Kind: "const", Name: shortType(x.Type())}, e.of(x.Len)}}
+		if x.Cap != x.Len {
+			mp.Args = append(mp.Args, e.of(x.Cap))
+		}
+		return mp
 	case *ssa.MakeChan:
 		return &Path{Kind: "alloc", Name: "make(" + shortType(x.Type()) + ")"}
 	}
